@@ -27,9 +27,9 @@ use std::borrow::ToOwned;
 // The error type is only passed through (`?`): its real definition is kept outside verus!{} and declared opaque.
 //@allow external_type_specification Error: real definition outside verus!{}, opaque (values are only passed through by `?`)
 //@allow external_body Error: opaque type
-//@struct ERR ParseError derive=-
+//@struct ERR ParseError derive=Debug
 //@end
-//@enum ERR Error derive=-
+//@enum ERR Error derive=Debug
 //@end
 verus! {
 
@@ -57,6 +57,10 @@ pub assume_specification<'a, T: Copy> [Option::<&'a T>::copied] (o: Option<&'a T
 //@struct POS Position derive=Clone,Copy,PartialEq,Eq
 //@end
 //@struct POS SourceSpan derive=Clone,Copy,PartialEq,Eq
+//@end
+//@allow external_body SourceSpan's Debug::fmt: formatting code (write!), body dropped; present only so that the error types keep their derived Debug
+//@impl POS /^impl Debug for SourceSpan/
+//@  fn fmt xbody
 //@end
 
 //@trait INP Input methods=len,position_after
